@@ -9,20 +9,25 @@ fn run_focus(cfg: &Cfg, focus: &'static str, level: &str, rule: &str, assumption
     let tier = cfg.tier;
     let budget = Duration::from_secs(tier.pick(300, 1700));
     // realistic network (whale provides the network pledge)
-    let hc = HistCfg { variant: Variant::WithWhale, nops: tier.pick(90, 160), dense: false, min_power: 4096, fault_prob, enumerate_faults };
-    agg.run_parallel("miners", tier.pick(40, 900), budget, |i, rng| history(i, rng, &hc, focus));
+    let hc = HistCfg { variant: Variant::WithWhale, nops: tier.pick(90, 160), dense: false, min_power: 4096, fault_prob, enumerate_faults, tail_days: 0 };
+    agg.run_parallel("miners", tier.pick(24, 900), budget, |i, rng| history(i, rng, &hc, focus));
     // fully dense ticks, shorter
-    let hd = HistCfg { variant: Variant::WithWhale, nops: tier.pick(40, 70), dense: true, min_power: 2048 * 6, fault_prob, enumerate_faults };
-    agg.run_parallel("miners-dense", tier.pick(8, 100), budget, |i, rng| history(i, rng, &hd, focus));
+    let hd = HistCfg { variant: Variant::WithWhale, nops: tier.pick(40, 70), dense: true, min_power: 2048 * 6, fault_prob, enumerate_faults, tail_days: 0 };
+    agg.run_parallel("miners-dense", tier.pick(6, 100), budget, |i, rng| history(i, rng, &hd, focus));
     // miners exactly as created, alone in the world
-    let ha = HistCfg { variant: Variant::AsCreated, nops: tier.pick(60, 120), dense: false, min_power: 4096, fault_prob, enumerate_faults };
-    agg.run_parallel("miners-as-created", tier.pick(16, 300), budget, |i, rng| history(i, rng, &ha, focus));
+    let ha = HistCfg { variant: Variant::AsCreated, nops: tier.pick(60, 120), dense: false, min_power: 4096, fault_prob, enumerate_faults, tail_days: 0 };
+    agg.run_parallel("miners-as-created", tier.pick(12, 300), budget, |i, rng| history(i, rng, &ha, focus));
+    if focus == "C14" {
+        // whole vesting schedules: few ops, then more than 180 days of chain time
+        let hv = HistCfg { variant: Variant::WithWhale, nops: tier.pick(30, 50), dense: false, min_power: 4096, fault_prob, enumerate_faults, tail_days: 190 };
+        agg.run_parallel("miners-vesting-tail", tier.pick(8, 120), budget, |i, rng| history(i, rng, &hv, focus));
+    }
     if focus == "C01" {
         // the other fund-holding actors: payment channels (solvency + conservation) and the market
         agg.run_parallel("paych", tier.pick(300, 5000), budget, |i, rng| super::c16::history(i, rng, tier, "C01"));
         agg.run_parallel("market", tier.pick(40, 800), budget, |i, rng| super::c06::history(i, rng, tier, "C01"));
     }
-    agg.finish(level, rule, tier.pick(20, 300), assumptions, serde_json::json!({}))
+    agg.finish(level, rule, tier.pick(16, 300), assumptions, serde_json::json!({}))
 }
 
 const RULE: &str = "one history = 1-2 real miners (2 KiB sectors => 2-sector partitions; optionally a 32 GiB miner) created through power.CreateMiner with the real deposit, 60-160 state-aware ops (pre-commit batches incl. reused numbers, ProveCommitSectors3 with good/bad proofs, ProveCommitSectorsNI, Window PoSt with random partition subsets and skipped sets, valid/invalid proofs, DeclareFaults / DeclareFaultsRecovered / TerminateSectors / ExtendSectorExpiration2 with right and scrambled deadline/partition addressing, CompactPartitions, CompactSectorNumbers, AwardBlockReward with penalties, WithdrawBalance by owner/worker/strangers, funding) interleaved with epoch advances aimed at deadline boundaries +-1, single epochs, several deadlines, days and weeks; cron ticked at every epoch with scheduled work (workload `miners`), at every epoch (`miners-dense`), and without the pledge-providing whale miner (`miners-as-created`); non-trivial = at least 8 successful messages of at least 3 kinds (C02/C04: and at least one sector proven by PoSt); distinct by hash of (op kind, outcome) sequence";
@@ -47,4 +52,11 @@ pub fn run_c04(cfg: &Cfg) -> i32 {
 }
 pub fn run_c05(cfg: &Cfg) -> i32 {
     run_focus(cfg, "C05", "fault_enumeration", RULE, ASSUME, 0)
+}
+
+pub fn run_c14(cfg: &Cfg) -> i32 {
+    run_focus(cfg, "C14", "exploration", RULE, ASSUME, 0)
+}
+pub fn run_c15(cfg: &Cfg) -> i32 {
+    run_focus(cfg, "C15", "fault_enumeration", RULE, ASSUME, 0)
 }
